@@ -829,8 +829,9 @@ impl FatVolume {
                             match_name,
                             block,
                         ) {
-                            Err(Error::NotFound) => continue,
-                            x => return x,
+                            Ok(Some(entry)) => return Ok(entry),
+                            Ok(None) => continue,
+                            Err(e) => return Err(e),
                         }
                     }
                     if cluster != ClusterId::ROOT_DIR {
@@ -862,8 +863,9 @@ impl FatVolume {
                             match_name,
                             block,
                         ) {
-                            Err(Error::NotFound) => continue,
-                            x => return x,
+                            Ok(Some(entry)) => return Ok(entry),
+                            Ok(None) => continue,
+                            Err(e) => return Err(e),
                         }
                     }
                     current_cluster = match self.next_cluster(block_cache, cluster) {
@@ -884,7 +886,7 @@ impl FatVolume {
         fat_type: FatType,
         match_name: &ShortFileName,
         block_idx: BlockIdx,
-    ) -> Result<DirEntry, Error<D::Error>>
+    ) -> Result<Option<DirEntry>, Error<D::Error>>
     where
         D: BlockDevice,
     {
@@ -893,16 +895,18 @@ impl FatVolume {
         for (i, dir_entry_bytes) in block.chunks_exact(OnDiskDirEntry::LEN).enumerate() {
             let dir_entry = OnDiskDirEntry::new(dir_entry_bytes);
             if dir_entry.is_end() {
-                // Can quit early
-                break;
+                // Nothing follows the end-of-directory marker, in this block
+                // or in any later one
+                return Err(Error::NotFound);
             } else if dir_entry.matches(match_name) {
                 // Found it
                 // Block::LEN always fits on a u32
                 let start = (i * OnDiskDirEntry::LEN) as u32;
-                return Ok(dir_entry.get_entry(fat_type, block_idx, start));
+                return Ok(Some(dir_entry.get_entry(fat_type, block_idx, start)));
             }
         }
-        Err(Error::NotFound)
+        // Not in this block - the caller should look at the next one
+        Ok(None)
     }
 
     /// Delete an entry from the given directory
@@ -940,13 +944,14 @@ impl FatVolume {
                     // Scan the cluster / root dir a block at a time
                     for block_idx in first_dir_block_num.range(dir_size) {
                         match self.delete_entry_in_block(block_cache, match_name, block_idx) {
-                            Err(Error::NotFound) => {
+                            Ok(None) => {
                                 // Carry on
                             }
-                            x => {
-                                // Either we deleted it OK, or there was some
+                            Ok(Some(())) => return Ok(()),
+                            Err(e) => {
+                                // The end of the directory, or some
                                 // catastrophic error reading/writing the disk.
-                                return x;
+                                return Err(e);
                             }
                         }
                     }
@@ -981,14 +986,15 @@ impl FatVolume {
                         start_block_idx.range(BlockCount(u32::from(self.blocks_per_cluster)))
                     {
                         match self.delete_entry_in_block(block_cache, match_name, block_idx) {
-                            Err(Error::NotFound) => {
+                            Ok(None) => {
                                 // Carry on
                                 continue;
                             }
-                            x => {
-                                // Either we deleted it OK, or there was some
+                            Ok(Some(())) => return Ok(()),
+                            Err(e) => {
+                                // The end of the directory, or some
                                 // catastrophic error reading/writing the disk.
-                                return x;
+                                return Err(e);
                             }
                         }
                     }
@@ -1016,7 +1022,7 @@ impl FatVolume {
         block_cache: &mut BlockCache<D>,
         match_name: &ShortFileName,
         block_idx: BlockIdx,
-    ) -> Result<(), Error<D::Error>>
+    ) -> Result<Option<()>, Error<D::Error>>
     where
         D: BlockDevice,
     {
@@ -1027,17 +1033,20 @@ impl FatVolume {
         for (i, dir_entry_bytes) in block.chunks_exact_mut(OnDiskDirEntry::LEN).enumerate() {
             let dir_entry = OnDiskDirEntry::new(dir_entry_bytes);
             if dir_entry.is_end() {
-                // Can quit early
-                break;
+                // Nothing follows the end-of-directory marker, in this block
+                // or in any later one
+                return Err(Error::NotFound);
             } else if dir_entry.matches(match_name) {
                 let start = i * OnDiskDirEntry::LEN;
                 // set first byte to the 'unused' marker
                 block[start] = 0xE5;
                 trace!("Updating directory");
-                return block_cache.write_back().map_err(Error::DeviceError);
+                block_cache.write_back().map_err(Error::DeviceError)?;
+                return Ok(Some(()));
             }
         }
-        Err(Error::NotFound)
+        // Not in this block - the caller should look at the next one
+        Ok(None)
     }
 
     /// Finds the next free cluster after the start_cluster and before end_cluster
